@@ -20,6 +20,7 @@ FIN = 'kopf.zalando.org/KopfFinalizerMarker'
 PREFIX = 'kopf.zalando.org'
 NEVER = 1000000
 REASONS = ('create', 'update', 'delete', 'resume')
+UNIVERSE = ['a', 'b', 'c', 'd', 'r']
 
 
 def ess_id(x: Any, on: bool) -> int:
@@ -52,7 +53,7 @@ def run_scenario(sc: dict[str, Any]) -> dict[str, Any]:
                 e = json.loads(lh_raw)
                 lh = ess_id(e.get('spec', {}).get('x'), (e.get('metadata', {}).get('labels', {}) or {}).get('on') == 'yes')
             prog = {}
-            for h in hs:
+            for h in UNIVERSE:
                 raw = ann.get(f'{PREFIX}/{h}')
                 if raw is None:
                     prog[h] = {'st': 'none', 'r': 0, 'pu': 'none', 'until': 0}
@@ -131,6 +132,10 @@ def run_scenario(sc: dict[str, Any]) -> dict[str, Any]:
             elif op == 'stop':
                 if o is not None and not o.done: o.stop()
             elif op == 'start':
+                if o is not None and not (o.done or o.killed):
+                    if o.stop_flag.is_set():      # still shutting down: come back a bit later
+                        sim.world.after(1, lambda: do('start'))
+                    return
                 start()
             elif op == 'relist':
                 sim.srv.compact(sim.things)
@@ -163,7 +168,7 @@ def run_scenario(sc: dict[str, Any]) -> dict[str, Any]:
             sim.rec('stall', what=str(e))
         raw = sim.recorder.events
         tr = convert(raw, hs, sc)
-        return {'id': sc['id'], 'cfg': cfg_key(sc), 'init': tr['init'], 'events': tr['events'], 'stall': stall, 'scenario': sc,
+        return {'id': sc['id'], 'conf': conf_of(sc), 'init': tr['init'], 'events': tr['events'], 'stall': stall, 'scenario': sc,
                 'final': project(sim.things, sim.obj('o1')) if sim.obj('o1') else None,
                 'patches_tail': len([e for e in raw if e['ev'] == 'srv.req' and e.get('kind') == 'patch'
                                      and e['t'] > sc.get('tail_from', sc['end'])])}
@@ -178,11 +183,13 @@ def _safe(fn, *a):
         pass        # the object is gone: the scripted edit has no target any more
 
 
-def cfg_key(sc: dict[str, Any]) -> str:
+def conf_of(sc: dict[str, Any]) -> dict[str, Any]:
     hs = sc['handlers']; order = sc.get('order') or list(hs)
-    return json.dumps({'order': order, 'lifecycle': sc.get('lifecycle', 'asap'), 'ctimeout': sc.get('ctimeout', 5),
-                       'hc': {h: {k: hs[h][k] for k in ('reasons', 'optional', 'deleted', 'retries', 'errors', 'backoff')} for h in order}},
-                      sort_keys=True)
+    none = {'reasons': [], 'optional': False, 'deleted': False, 'retries': 0, 'mode': 'temporary', 'backoff': 2}
+    hc = {h: ({'reasons': list(hs[h]['reasons']), 'optional': hs[h]['optional'], 'deleted': hs[h]['deleted'],
+               'retries': hs[h]['retries'], 'mode': hs[h]['errors'], 'backoff': hs[h]['backoff']} if h in hs else none)
+          for h in UNIVERSE}
+    return {'hc': hc, 'order': order, 'lifecycle': sc.get('lifecycle', 'asap'), 'ctimeout': sc.get('ctimeout', 5)}
 
 
 def _rvparse(v: Any, off: int) -> int:
@@ -203,15 +210,25 @@ def convert(raw: list[dict[str, Any]], hs: dict[str, Any], sc: dict[str, Any]) -
     last_rv = 0
     listed_rvs: set[int] = set()
     envfin: dict[str, Any] = {}
+    scheds: dict[int, str] = {}
+    killed: set[Any] = set()
+    up0 = True
     for e in raw:
         ev = e['ev']; t = e['t']
         if ev == 'env.fin':
             envfin = e
             continue
+        if ev == 'q.start':
+            scheds[e['sched']] = e['res']
+            continue
+        if off is None and ev in ('op.kill', 'op.return'):
+            up0 = False
+        if off is None and ev == 'op.start':
+            up0 = True
         if ev == 'srv.create' and e.get('res') == 'things':
             if off is None:
                 off = e['rv'] - 1
-                init = {'ess': e['proj']['ess'], 'match': e['proj']['match'], 't': t}
+                init = {'ess': e['proj']['ess'], 'match': e['proj']['match'], 't': t, 'up': up0}
                 last_rv = 1
             continue
         if off is None:
@@ -281,9 +298,10 @@ def convert(raw: list[dict[str, Any]], hs: dict[str, Any], sc: dict[str, Any]) -
                     rec.update(fins=p['fins'], rv=p['rv'] - off, gone=bool(e.get('gone')))
                 out.append(rec)
         elif ev == 'op.kill':
+            killed.add(e.get('loop'))
             out.append({'ev': 'kill', 't': t})
-        elif ev == 'op.stop':
-            out.append({'ev': 'stop', 't': t})
+        elif ev == 'q.depleting' and scheds.get(e.get('sched')) == 'things' and e.get('loop') not in killed:
+            out.append({'ev': 'stop', 't': t})      # the watcher is cancelled: the stream is closed from now on
         elif ev == 'op.return':
             out.append({'ev': 'down', 't': t})
         elif ev == 'quiet':
@@ -304,42 +322,34 @@ def _tla_set(xs) -> str:
     return '{' + ', '.join(json.dumps(x) for x in xs) + '}'
 
 
-def cfg_module(key: str, name: str) -> tuple[str, str]:
-    """A generated module holding the handler configuration of one trace group, and the cfg text."""
-    c = json.loads(key)
-    recs = []
-    for h in c['order']:
-        x = c['hc'][h]
-        recs.append(f'{h} |-> [reasons |-> {_tla_set(x["reasons"])}, optional |-> {str(x["optional"]).upper()}, '
-                    f'deleted |-> {str(x["deleted"]).upper()}, retries |-> {x["retries"]}, mode |-> "{x["errors"]}", '
-                    f'backoff |-> {x["backoff"]}]')
-    mod = (f'---- MODULE {name} ----\nEXTENDS Trace_Handling\n'
-           f'HCdef == [{", ".join(recs)}]\nOrderdef == <<{", ".join(json.dumps(h) for h in c["order"])}>>\n'
-           f'AllDoors == {{"kill", "lost", "late", "stop"}}\nEss == 0..60\nDel == 0..1000\nFor == {{"f1", "f2"}}\n====\n')
-    cfg = ('SPECIFICATION TSpec\nCONSTANTS\n'
-           f'  H = {_tla_set(c["order"])}\n  HC <- HCdef\n  Order <- Orderdef\n  Lifecycle = "{c["lifecycle"]}"\n'
-           f'  CTimeout = {c["ctimeout"]}\n  Delays <- Del\n  EssVals <- Ess\n  Foreign <- For\n  Horizon = 100000\n  Doors <- AllDoors\n'
-           '  MaxEdits = 1000\n  MaxFails = 1000\n  MaxKills = 1000\n  MaxStops = 1000\n  MaxDeletes = 1000\n  MaxForeign = 1000\n'
-           '  MaxToggles = 1000\n  MaxRelists = 1000\n  MaxHolds = 1000\n'
-           'CONSTRAINT Book\nPOSTCONDITION Verdicts\nCHECK_DEADLOCK FALSE\n')
-    return mod, cfg
+CFG = ('SPECIFICATION TSpec\nCONSTANTS\n  H = {"a", "b", "c", "d", "r"}\n  ConfSet = {}\n  Delays <- Del\n  EssVals <- Ess\n'
+       '  Foreign <- For\n  Horizon = 100000\n  Doors <- AllDoors\n'
+       '  MaxEdits = 1000\n  MaxFails = 1000\n  MaxKills = 1000\n  MaxStops = 1000\n  MaxDeletes = 1000\n  MaxForeign = 1000\n'
+       '  MaxToggles = 1000\n  MaxRelists = 1000\n  MaxHolds = 1000\n'
+       'CONSTRAINT Book\nPOSTCONDITION Verdicts\nCHECK_DEADLOCK FALSE\n')
+
+
+def shard_module(name: str, delays: set[int]) -> str:
+    return (f'---- MODULE {name} ----\nEXTENDS Trace_Handling\n'
+            f'AllDoors == {{"kill", "lost", "late", "stop"}}\nEss == 0..60\nDel == {_tla_set(sorted(delays))}\nFor == {{"f1", "f2"}}\n====\n')
 
 
 def judge(traces: list[dict[str, Any]], rep: Any, name: str = 'Trace_Handling') -> dict[str, dict[str, Any]]:
     verdicts: dict[str, dict[str, Any]] = {}
-    groups: dict[str, list[dict[str, Any]]] = {}
-    for t in traces:
-        groups.setdefault(t['cfg'], []).append(t)
-    for gi, (key, group) in enumerate(sorted(groups.items())):
+    nshards = max(1, min(14, len(traces) // 12))
+    groups = {str(k): traces[k::nshards] for k in range(nshards)}
+    def one(arg):
+        gi, key, group = arg
         scratch = tempfile.mkdtemp(prefix='vf-th-')
         try:
             mname = f'TH_{gi}'
-            mod, cfg = cfg_module(key, mname)
+            delays = {e['d'] for t in group for e in t['events'] if e['ev'] == 'inv'} | {0}
+            mod, cfg = shard_module(mname, delays), CFG
             with open(os.path.join(scratch, mname + '.tla'), 'w') as f:
                 f.write(mod)
             path = os.path.join(scratch, 'traces.json')
             with open(path, 'w') as f:
-                json.dump([{'id': t['id'], 'init': t['init'], 'events': t['events']} for t in group], f)
+                json.dump([{'id': t['id'], 'conf': t['conf'], 'init': t['init'], 'events': t['events']} for t in group], f)
             r = tlc.run(os.path.join(scratch, mname + '.tla'), cfg_text=cfg, workers=1, deque=True,
                         env={'TRACE_FILE': path}, timeout=3000)
         finally:
@@ -347,7 +357,13 @@ def judge(traces: list[dict[str, Any]], rep: Any, name: str = 'Trace_Handling') 
             shutil.rmtree(scratch, ignore_errors=True)
         if not r.ok:
             raise MachineryFailure(f'{name} failed: {r.violated} {r.errors}\n{r.out[-3000:]}')
-        rep.add_tlc(f'{name}[{gi}]', r)
+        return gi, group, r
+    from concurrent.futures import ThreadPoolExecutor
+    with ThreadPoolExecutor(14) as ex:
+        results = list(ex.map(one, [(gi, key, group) for gi, (key, group) in enumerate(sorted(groups.items()))]))
+    agg = {'distinct': 0, 'generated': 0, 'wall': 0.0}
+    for gi, group, r in results:
+        agg['distinct'] += r.distinct; agg['generated'] += r.generated; agg['wall'] = max(agg['wall'], r.wall)
         got = {}
         for m in _RE_VERDICT.finditer(r.out):
             got[int(m.group(1))] = dict(id=m.group(2), strict=int(m.group(3)), loose=int(m.group(4)), n=int(m.group(5)), inv=m.group(6))
@@ -363,4 +379,77 @@ def judge(traces: list[dict[str, Any]], rep: Any, name: str = 'Trace_Handling') 
                 nxt = t['events'][v['loose']] if v['loose'] < len(t['events']) else None
                 v['verdict'] = f'rejected at event {v["loose"] + 1} of {v["n"]}: {nxt}'
             verdicts[t['id']] = v
+    rep.states += agg['distinct']; rep.transitions += agg['generated']
+    rep.tlc_runs.append({'config': f'{name} ({len(results)} shards)',
+                         'distinct_states': agg['distinct'], 'states_generated': agg['generated']})
     return verdicts
+
+
+# --------------------------------------------------------------------------- scenario generation
+def gen_scenarios(seed: int, n: int, profile: str) -> list[dict[str, Any]]:
+    """Seeded random closed-loop scenarios; `profile` biases the environment towards one property's doors."""
+    import random
+    rnd = random.Random(f'{profile}-{seed}')
+    out = []
+    for i in range(n):
+        lifecycle = rnd.choice(['one', 'all', 'asap'])
+        hs: dict[str, Any] = {}
+        def script(k):
+            items = ['ok', 'ok', ('temp', rnd.choice([1, 2, 3])), 'exc', 'perm']
+            w = [6, 6, 4, 2, 1] if profile != 'errors' else [3, 3, 4, 4, 3]
+            return [rnd.choices(items, w)[0] for _ in range(k)]
+        nh = rnd.choice([1, 2, 2, 3])
+        for h in ['a', 'b', 'c'][:nh]:
+            hs[h] = hdl(rnd.choice([['create', 'update'], ['create', 'update'], ['create'], ['update']]), script(rnd.randint(0, 3)),
+                        retries=rnd.choice([0, 0, 2, 3]) if profile == 'errors' else 0,
+                        errors=rnd.choice(['temporary', 'temporary', 'permanent', 'ignored']) if profile == 'errors' else 'temporary',
+                        backoff=rnd.choice([1, 2, 3]))
+        if profile in ('finalizer', 'progress', 'converge') and rnd.random() < (0.9 if profile == 'finalizer' else 0.4):
+            hs['d'] = hdl(['delete'], script(rnd.randint(0, 2)), optional=rnd.random() < 0.25, backoff=rnd.choice([1, 2]))
+        if profile in ('resume', 'converge', 'progress') and rnd.random() < (0.95 if profile == 'resume' else 0.3):
+            hs['r'] = hdl(['resume'], script(rnd.randint(0, 2)), deleted=rnd.random() < 0.3, backoff=rnd.choice([1, 2]))
+        env: list[tuple] = []
+        t = 1
+        x = 1
+        alive = True; deleted = False; held = False
+        nops = rnd.randint(1, 7)
+        for _ in range(nops):
+            t += rnd.choice([0, 0, 1, 1, 2, 3, 5, 8])
+            ph = rnd.choice([0, 1, 1])
+            ops = ['edit'] * 4
+            if profile in ('finalizer', 'progress', 'converge', 'stealth'): ops += ['toggle'] * (3 if profile in ('finalizer', 'stealth') else 1)
+            if profile in ('finalizer', 'converge', 'progress') and not deleted: ops += ['delete'] * 2
+            if profile == 'finalizer': ops += ['finadd', 'findel', 'finadd']
+            if profile in ('progress', 'converge', 'resume', 'errors'): ops += ['kill', 'stop'] if alive else ['start'] * 4
+            if profile in ('resume',) and alive: ops += ['relist'] * 3
+            if profile == 'consistency': ops += (['release'] * 4 if held else ['hold'] * 4) + ['fedit'] * 3
+            op = rnd.choice(ops)
+            if op == 'edit':
+                x = x + 1 if rnd.random() < 0.8 or x == 1 else x - 1
+                env.append((t, ph, 'edit', x))
+            elif op == 'fedit':
+                x += 1; env.append((t, ph, 'edit', x))
+            elif op in ('finadd', 'findel'):
+                env.append((t, ph, op, rnd.choice(['f1', 'f2'])))
+            elif op in ('kill', 'stop'):
+                alive = False; env.append((t, ph, op))
+            elif op == 'start':
+                alive = True; env.append((t, ph, op))
+            elif op == 'hold':
+                held = True; env.append((t, ph, op))
+            elif op == 'release':
+                held = False; env.append((t, ph, op))
+            else:
+                if op == 'delete': deleted = True
+                env.append((t, ph, op))
+        if not alive:
+            t += rnd.choice([0, 1, 4]); env.append((t, 1, 'start'))
+        if held:
+            t += rnd.choice([1, 3, 7]); env.append((t, 1, 'release'))
+        # sanitise foreign finalizer ops: add only if absent, delete only if present (checked at run time by _safe)
+        sc = {'id': f'{profile}-{seed}-{i}', 'handlers': hs, 'order': list(hs), 'lifecycle': lifecycle,
+              'ctimeout': rnd.choice([5, 5, 2, 3]) if profile == 'consistency' else 5,
+              'init': {'x': 1, 'on': not (profile == 'stealth' and rnd.random() < 0.6)},
+              'env': env, 'end': t + 80, 'tail_from': t + 60, 'profile': profile}
+        out.append(sc)
+    return out
